@@ -147,6 +147,26 @@ def r2(ctx, prog):
     for q in hit:
         ok = ok and rl.returns_only(f, q, 0)
     ctx.check(R, ok, f.where(), "a request above the ceiling returns NULL", key="C06.R2:find_page:null")
+    # the binned (small/medium) path is taken only for a *wrap-corrected* size within the medium limit: with padding the size that
+    # arrives here is request + MI_PADDING_SIZE and may have wrapped around; only `size - MI_PADDING_SIZE` tells a huge request
+    # from a tiny one (in the release configuration the padding is 0 and both spellings coincide)
+    pad_ = prog.const("MI_PADDING_SIZE")
+    med_ = prog.const("MI_MEDIUM_OBJ_SIZE_MAX")
+    szp = f.param_id(1)
+    pm_ = {d: "$%d" % k for k, d in enumerate(f.pids)}
+    def medium(e, pol):
+        if not isinstance(e, int):
+            return False
+        c_ = rl.oriented(f, e, pol, lambda j: f.mentions_decl(j, szp) or "$1" in rl.canon(f, j, pm_), rl.is_const(f))
+        if c_ is None or c_[0] not in ("<=", "<"):
+            return False
+        x = rl.canon(f, c_[1], pm_).replace(" ", "")
+        k = f.cv(c_[2]) + (0 if c_[0] == "<=" else -1)
+        return (x == "($1-%d)" % pad_ and k <= med_ - pad_) if pad_ else (x in ("$1", "($1-0)") and k <= med_)
+    for c in f.calls("mi_find_free_page"):
+        w = f.cfg.guarded(f.cfg.pt(c), medium)
+        ctx.check(R, w is None, f.where(c), "the binned path only for size - MI_PADDING_SIZE <= MI_MEDIUM_OBJ_SIZE_MAX - MI_PADDING_SIZE (a wrapped padded size must not look small)",
+                  key="C06.R2:find_page:medium", witness=w)
     # small/medium path is only taken below MI_MEDIUM_OBJ_SIZE_MAX
     g = prog.fn("mi_heap_malloc_zero_aligned_at_generic")
     cfg = g.cfg
@@ -287,10 +307,14 @@ def run(ctx):
     ctx.explanation = ("Static decision of C06's code-shaped necessary conditions: sibling agreement of all 25 (count,size) entry points on the overflow check or pair forwarding, "
                        "dominance of the size-ceiling and alignment tests over every allocation call, posix_memalign's validate-then-allocate-then-store order, errno stores. "
                        "NOT decided: that well-formed requests fail only when the OS refuses; absence of any heap side effect on failure.")
-    for c in (["REL"] if ctx.tier == "quick" else ["REL", "SEC", "DBG"]):
+    # the padded configuration is part of the quick tier too: the size-ceiling rule is only meaningful where MI_PADDING_SIZE != 0
+    for c in (["REL", "SEC"] if ctx.tier == "quick" else ["REL", "SEC", "DBG"]):
         prog = ctx.prog(c)
         n0 = len(ctx.instances)
-        r1(ctx, prog); r2(ctx, prog); r3(ctx, prog); r4(ctx, prog)
+        if c == "SEC" and ctx.tier == "quick":
+            r2(ctx, prog)
+        else:
+            r1(ctx, prog); r2(ctx, prog); r3(ctx, prog); r4(ctx, prog)
         if c != "REL":
             for i in ctx.instances[n0:]:
                 i["site"] += " [%s]" % c
